@@ -569,7 +569,7 @@ func genConCase(t *rapid.T) *conCase {
 		cc.genStep(t, 3)
 	}
 	g.o = normal
-	for i, m := 0, rapid.IntRange(0, 25).Draw(t, "tail"); i < m; i++ {
+	for i, m := 0, rapid.IntRange(0, 40).Draw(t, "tail"); i < m; i++ {
 		cc.genStep(t, 5)
 	}
 	tr.ents, tr.meta, tr.boot = g.ents, g.meta, o.boot
